@@ -51,6 +51,9 @@ fn scenarios(thorough: bool) -> Vec<Sc> {
     }
     // a message larger than one segment (two segments) next to small ones
     v.push(Sc { name: "N3-multi-segment-message", pipe: 4096, senders: vec![vec![bf_block(70_000), bf_block(3)], vec![ka(2), ka(3)]], mode: 0 });
+    // the same with the responder's mode bit on the wire (the initiator's read side strips it
+    // before it files partial payloads under the channel)
+    v.push(Sc { name: "N3s-multi-segment-message-server-mode", pipe: 4096, senders: vec![vec![bf_block(70_000), bf_block(3)], vec![ka(2), ka(3)]], mode: proto::PROTOCOL_SERVER });
     // (two sends on ONE protocol at once are not a scenario here: since the interface keeps one
     // operation per peer in flight, `send` never runs twice on one writer; queued sends on one
     // protocol are explored on the real TcpInterface in c20_iface.rs)
